@@ -32,6 +32,11 @@ Proof.
   - rewrite IH. reflexivity.
 Qed.
 
+Lemma memN_filter_sub x f l : memN x (filter f l) = true -> memN x l = true.
+Proof.
+  unfold memN. rewrite !existsb_exists. intros [y [Hy He]]. apply filter_In in Hy. exists y. split; [apply Hy|exact He].
+Qed.
+
 Lemma memN_app x l1 l2 : memN x (l1 ++ l2) = (memN x l1 || memN x l2)%bool.
 Proof. unfold memN. apply existsb_app. Qed.
 
@@ -71,7 +76,7 @@ Qed.
 Definition thr (s : sys) (k : nat) := nth_error (threads s) k.
 
 Definition pending (s : sys) (b : N) : Prop :=
-  memN b (q s) = true \/ exists i pc, thr s i = Some (TDeny b pc) /\ (pc = 1 \/ pc = 2).
+  memN b (q s) = true \/ exists i e pc, thr s i = Some (TDeny b e pc) /\ (pc = 1 \/ pc = 2).
 
 (* J: the deny channel of every connection past the exchange is recorded, unless already closed / gone *)
 Definition InvJ (s : sys) : Prop :=
@@ -92,10 +97,11 @@ Definition Inv (s : sys) : Prop := InvJ s /\ InvI s /\ InvM s.
 Definition initial_thread (t : thread) : Prop :=
   match t with
   | TSession _ pc _ => pc = 0
-  | TDeny _ pc => pc = 0
+  | TDeny _ _ pc => pc = 0
   | TAllow _ pc => pc = 0
   | TWs _ pc tok => pc = 0 /\ tok = None
   | TLeave _ pc => pc = 0
+  | TPrune _ pc => pc = 0
   end.
 
 Lemma inv_init ts cs n : Forall initial_thread ts -> Inv (init ts cs n).
@@ -112,11 +118,11 @@ Qed.
 Ltac tstep_inv H Hnth :=
   unfold tstep in H;
   let t := fresh "t" in let b := fresh "b" in let pc := fresh "pc" in let st := fresh "st" in
-  let c := fresh "c" in let tok := fresh "tok" in let k0 := fresh "k0" in
+  let c := fresh "c" in let tok := fresh "tok" in let k0 := fresh "k0" in let e := fresh "e" in let tm := fresh "tm" in
   match type of H with
   | context [nth_error (threads ?s) ?i] => destruct (nth_error (threads s) i) as [t|] eqn:Hnth; [|discriminate H]
   end;
-  destruct t as [b pc st|b pc|b pc|c pc tok|k0 pc];
+  destruct t as [b pc st|b e pc|b pc|c pc tok|k0 pc|tm pc];
   try (destruct pc as [|[|[|pc]]]; try discriminate H);
   try (destruct tok as [b|]; try discriminate H).
 
@@ -135,16 +141,16 @@ Qed.
 Lemma pending_put s s0 i t t' b :
   threads s0 = threads s -> thr s i = Some t ->
   (forall x, memN x (q s) = true -> memN x (q s0) = true) ->
-  (forall pc, t = TDeny b pc -> (pc = 1 \/ pc = 2) -> (exists pc', t' = TDeny b pc' /\ (pc' = 1 \/ pc' = 2)) \/ memN b (q s0) = true) ->
+  (forall e pc, t = TDeny b e pc -> (pc = 1 \/ pc = 2) -> (exists pc', t' = TDeny b e pc' /\ (pc' = 1 \/ pc' = 2)) \/ memN b (q s0) = true) ->
   pending s b -> pending (with_threads s0 (upd (threads s) i t')) b.
 Proof.
-  intros Hts Hi Hq Hd [Hp|[j [pc [Hj Hpc]]]].
+  intros Hts Hi Hq Hd [Hp|[j [e [pc [Hj Hpc]]]]].
   - left. cbn. apply Hq; exact Hp.
   - destruct (Nat.eq_dec i j) as [->|Hn].
-    + rewrite Hi in Hj. inversion Hj; subst t. destruct (Hd pc eq_refl Hpc) as [[pc' [-> Hpc']]|Hq'].
-      * right. exists j, pc'. split; [|exact Hpc']. rewrite (thr_put s s0 j _ j Hts), Nat.eqb_refl, Hi. reflexivity.
+    + rewrite Hi in Hj. inversion Hj; subst t. destruct (Hd e pc eq_refl Hpc) as [[pc' [-> Hpc']]|Hq'].
+      * right. exists j, e, pc'. split; [|exact Hpc']. rewrite (thr_put s s0 j _ j Hts), Nat.eqb_refl, Hi. reflexivity.
       * left. cbn. exact Hq'.
-    + right. exists j, pc. split; [|exact Hpc]. rewrite (thr_put s s0 i _ j Hts).
+    + right. exists j, e, pc. split; [|exact Hpc]. rewrite (thr_put s s0 i _ j Hts).
       destruct (Nat.eqb_spec i j); [contradiction|exact Hj].
 Qed.
 
@@ -165,7 +171,7 @@ Proof.
       destruct (HI k c pc b Hk Hpc Hd) as [Hc|[He|Hp]].
       + left. rewrite memn_app, Hc. apply orb_true_r.
       + right; left. exact He.
-      + destruct Hp as [Hp|[j [pcj [Hj Hpcj]]]].
+      + destruct Hp as [Hp|[j [ej [pcj [Hj Hpcj]]]]].
         * rewrite Hq, memN_cons in Hp. destruct (N.eqb_spec b b') as [->|Hn].
           -- assert (Hpc' : pc = 1 \/ pc = 2 \/ pc = 3) by (destruct Hpc; auto).
              destruct (HJ k c pc b' Hk Hpc') as [Hin|[Hc|He]].
@@ -173,7 +179,7 @@ Proof.
              ++ left. rewrite memn_app, Hc. apply orb_true_r.
              ++ right; left. exact He.
           -- right; right. left. cbn. exact Hp.
-        * right; right. right. exists j, pcj. split; [exact Hj|exact Hpcj].
+        * right; right. right. exists j, ej, pcj. split; [exact Hj|exact Hpcj].
     - intros k b Hin. cbn in Hin. destruct (HM k b Hin) as [c Hc]. exists c. exact Hc. }
   (* a thread step *)
   tstep_inv Hstep Hnth.
@@ -183,14 +189,14 @@ Proof.
       * intros k c pc b0 Hk Hpc. rewrite (thr_put s s i _ k eq_refl) in Hk. destruct (Nat.eqb_spec i k); [unfold thr in Hk; rewrite Hnth in Hk; discriminate|]. exact (HJ k c pc b0 Hk Hpc).
       * intros k c pc b0 Hk Hpc Hd. rewrite (thr_put s s i _ k eq_refl) in Hk. destruct (Nat.eqb_spec i k); [unfold thr in Hk; rewrite Hnth in Hk; discriminate|].
         cbn in Hd. destruct (HI k c pc b0 Hk Hpc Hd) as [H|[H|H]]; [left; exact H|right; left; exact H|right; right].
-        eapply (pending_put s s i); [reflexivity|exact Hnth|auto|intros pc' He; discriminate|exact H].
+        eapply (pending_put s s i); [reflexivity|exact Hnth|auto|intros e' pc' He; discriminate|exact H].
       * intros k b0 Hin. cbn in Hin. destruct (HM k b0 Hin) as [c Hc]. exists c. rewrite (thr_put s s i _ k eq_refl).
         destruct (Nat.eqb_spec i k) as [->|]; [unfold thr in Hc; rewrite Hnth in Hc; discriminate|exact Hc].
     + repeat split.
       * intros k c pc b0 Hk Hpc. rewrite (thr_put s (op_track s b) i _ k eq_refl) in Hk. destruct (Nat.eqb_spec i k); [unfold thr in Hk; rewrite Hnth in Hk; discriminate|]. exact (HJ k c pc b0 Hk Hpc).
       * intros k c pc b0 Hk Hpc Hd. rewrite (thr_put s (op_track s b) i _ k eq_refl) in Hk. destruct (Nat.eqb_spec i k); [unfold thr in Hk; rewrite Hnth in Hk; discriminate|].
         cbn in Hd. destruct (HI k c pc b0 Hk Hpc Hd) as [H|[H|H]]; [left; exact H|right; left; exact H|right; right].
-        eapply (pending_put s (op_track s b) i); [reflexivity|exact Hnth|auto|intros pc' He; discriminate|exact H].
+        eapply (pending_put s (op_track s b) i); [reflexivity|exact Hnth|auto|intros e' pc' He; discriminate|exact H].
       * intros k b0 Hin. cbn in Hin. destruct (HM k b0 Hin) as [c Hc]. exists c. rewrite (thr_put s (op_track s b) i _ k eq_refl).
         destruct (Nat.eqb_spec i k) as [->|]; [unfold thr in Hc; rewrite Hnth in Hc; discriminate|exact Hc].
   - (* TSession b 1 : SubmitToken *)
@@ -198,21 +204,21 @@ Proof.
     + intros k c pc b0 Hk Hpc. rewrite (thr_put s (op_submit s b) i _ k eq_refl) in Hk. destruct (Nat.eqb_spec i k); [unfold thr in Hk; rewrite Hnth in Hk; discriminate|]. exact (HJ k c pc b0 Hk Hpc).
     + intros k c pc b0 Hk Hpc Hd. rewrite (thr_put s (op_submit s b) i _ k eq_refl) in Hk. destruct (Nat.eqb_spec i k); [unfold thr in Hk; rewrite Hnth in Hk; discriminate|].
       cbn in Hd. destruct (HI k c pc b0 Hk Hpc Hd) as [H|[H|H]]; [left; exact H|right; left; exact H|right; right].
-      eapply (pending_put s (op_submit s b) i); [reflexivity|exact Hnth|auto|intros pc' He; discriminate|exact H].
+      eapply (pending_put s (op_submit s b) i); [reflexivity|exact Hnth|auto|intros e' pc' He; discriminate|exact H].
     + intros k b0 Hin. cbn in Hin. destruct (HM k b0 Hin) as [c Hc]. exists c. rewrite (thr_put s (op_submit s b) i _ k eq_refl).
       destruct (Nat.eqb_spec i k) as [->|]; [unfold thr in Hc; rewrite Hnth in Hc; discriminate|exact Hc].
   - (* TDeny b 0 : Deny *)
     inversion Hstep; subst s'; clear Hstep. repeat split.
-    + intros k c pc b0 Hk Hpc. rewrite (thr_put s (op_deny s b) i _ k eq_refl) in Hk. destruct (Nat.eqb_spec i k); [unfold thr in Hk; rewrite Hnth in Hk; discriminate|]. exact (HJ k c pc b0 Hk Hpc).
-    + intros k c pc b0 Hk Hpc Hd. rewrite (thr_put s (op_deny s b) i _ k eq_refl) in Hk. destruct (Nat.eqb_spec i k) as [|Hik]; [unfold thr in Hk; rewrite Hnth in Hk; discriminate|].
+    + intros k c pc b0 Hk Hpc. rewrite (thr_put s (op_deny_until s b e) i _ k eq_refl) in Hk. destruct (Nat.eqb_spec i k); [unfold thr in Hk; rewrite Hnth in Hk; discriminate|]. exact (HJ k c pc b0 Hk Hpc).
+    + intros k c pc b0 Hk Hpc Hd. rewrite (thr_put s (op_deny_until s b e) i _ k eq_refl) in Hk. destruct (Nat.eqb_spec i k) as [|Hik]; [unfold thr in Hk; rewrite Hnth in Hk; discriminate|].
       cbn in Hd. destruct (N.eq_dec b0 b) as [->|Hn].
-      * right; right. right. exists i, 1. split; [|left; reflexivity].
-        rewrite (thr_put s (op_deny s b) i _ i eq_refl), Nat.eqb_refl. unfold thr. rewrite Hnth. reflexivity.
+      * right; right. right. exists i, e, 1. split; [|left; reflexivity].
+        rewrite (thr_put s (op_deny_until s b e) i _ i eq_refl), Nat.eqb_refl. unfold thr. rewrite Hnth. reflexivity.
       * rewrite memN_cons in Hd. destruct (N.eqb_spec b0 b); [contradiction|]. cbn in Hd. rewrite memN_rm_other in Hd by exact Hn.
         destruct (HI k c pc b0 Hk Hpc Hd) as [H|[H|H]]; [left; exact H|right; left; exact H|right; right].
-        eapply (pending_put s (op_deny s b) i); [reflexivity|exact Hnth|auto| |exact H].
-        intros pc' He Hp'. inversion He; subst. destruct Hp'; discriminate.
-    + intros k b0 Hin. cbn in Hin. destruct (HM k b0 Hin) as [c Hc]. exists c. rewrite (thr_put s (op_deny s b) i _ k eq_refl).
+        eapply (pending_put s (op_deny_until s b e) i); [reflexivity|exact Hnth|auto| |exact H].
+        intros e' pc' He Hp'. inversion He; subst. destruct Hp'; discriminate.
+    + intros k b0 Hin. cbn in Hin. destruct (HM k b0 Hin) as [c Hc]. exists c. rewrite (thr_put s (op_deny_until s b e) i _ k eq_refl).
       destruct (Nat.eqb_spec i k) as [->|]; [unfold thr in Hc; rewrite Hnth in Hc; discriminate|exact Hc].
   - (* TDeny b 1 : purge *)
     inversion Hstep; subst s'; clear Hstep. repeat split.
@@ -220,7 +226,7 @@ Proof.
     + intros k c pc b0 Hk Hpc Hd. rewrite (thr_put s (op_purge s b) i _ k eq_refl) in Hk. destruct (Nat.eqb_spec i k); [unfold thr in Hk; rewrite Hnth in Hk; discriminate|].
       cbn in Hd. destruct (HI k c pc b0 Hk Hpc Hd) as [H|[H|H]]; [left; exact H|right; left; exact H|right; right].
       eapply (pending_put s (op_purge s b) i); [reflexivity|exact Hnth|auto| |exact H].
-      intros pc' He Hp'. inversion He; subst. left. exists 2. split; [reflexivity|right; reflexivity].
+      intros e' pc' He Hp'. inversion He; subst. left. exists 2. split; [reflexivity|right; reflexivity].
     + intros k b0 Hin. cbn in Hin. destruct (HM k b0 Hin) as [c Hc]. exists c. rewrite (thr_put s (op_purge s b) i _ k eq_refl).
       destruct (Nat.eqb_spec i k) as [->|]; [unfold thr in Hc; rewrite Hnth in Hc; discriminate|exact Hc].
   - (* TDeny b 2 : notify *)
@@ -230,7 +236,7 @@ Proof.
       cbn in Hd. destruct (HI k c pc b0 Hk Hpc Hd) as [H|[H|H]]; [left; exact H|right; left; exact H|right; right].
       eapply (pending_put s (op_notify s b) i); [reflexivity|exact Hnth| | |exact H].
       * intros x Hx. cbn. rewrite memN_app, Hx. reflexivity.
-      * intros pc' He Hp'. inversion He; subst. right. cbn. rewrite memN_app, memN_cons, N.eqb_refl. cbn. apply orb_true_r.
+      * intros e' pc' He Hp'. inversion He; subst. right. cbn. rewrite memN_app, memN_cons, N.eqb_refl. cbn. apply orb_true_r.
     + intros k b0 Hin. cbn in Hin. destruct (HM k b0 Hin) as [c Hc]. exists c. rewrite (thr_put s (op_notify s b) i _ k eq_refl).
       destruct (Nat.eqb_spec i k) as [->|]; [unfold thr in Hc; rewrite Hnth in Hc; discriminate|exact Hc].
   - (* TAllow b 0 *)
@@ -240,7 +246,7 @@ Proof.
       cbn in Hd. destruct (N.eq_dec b0 b) as [->|Hn]; [rewrite memN_rm_same in Hd; discriminate|].
       rewrite memN_rm_other in Hd by exact Hn.
       destruct (HI k c pc b0 Hk Hpc Hd) as [H|[H|H]]; [left; exact H|right; left; exact H|right; right].
-      eapply (pending_put s (op_allow s b) i); [reflexivity|exact Hnth|auto|intros pc' He; discriminate|exact H].
+      eapply (pending_put s (op_allow s b) i); [reflexivity|exact Hnth|auto|intros e' pc' He; discriminate|exact H].
     + intros k b0 Hin. cbn in Hin. destruct (HM k b0 Hin) as [c Hc]. exists c. rewrite (thr_put s (op_allow s b) i _ k eq_refl).
       destruct (Nat.eqb_spec i k) as [->|]; [unfold thr in Hc; rewrite Hnth in Hc; discriminate|exact Hc].
   - (* TWs c 0 (tok = Some _, impossible initially but harmless) *)
@@ -254,7 +260,7 @@ Proof.
         destruct (Nat.eqb_spec i k) as [->|Hik].
         -- unfold thr in Hk; rewrite Hnth in Hk. inversion Hk; subst. destruct Hpc; discriminate.
         -- cbn in Hd. destruct (HI k c0 pc b0 Hk Hpc Hd) as [H|[H|H]]; [left; exact H|right; left; exact H|right; right].
-           eapply (pending_put s (op_exchange_record s c i b1) i); [reflexivity|exact Hnth|auto|intros pc' He; discriminate|exact H].
+           eapply (pending_put s (op_exchange_record s c i b1) i); [reflexivity|exact Hnth|auto|intros e' pc' He; discriminate|exact H].
       * intros k b0 Hin. cbn in Hin. destruct (HM k b0 Hin) as [c0 Hc]. exists c0. rewrite (thr_put s (op_exchange_record s c i b1) i _ k eq_refl).
         destruct (Nat.eqb_spec i k) as [->|]; [unfold thr in Hc; rewrite Hnth in Hc; discriminate|exact Hc].
     + repeat split.
@@ -263,7 +269,7 @@ Proof.
       * intros k c0 pc b0 Hk Hpc Hd. rewrite (thr_put s s i _ k eq_refl) in Hk.
         destruct (Nat.eqb_spec i k) as [->|Hik]; [unfold thr in Hk; rewrite Hnth in Hk; discriminate|].
         cbn in Hd. destruct (HI k c0 pc b0 Hk Hpc Hd) as [H|[H|H]]; [left; exact H|right; left; exact H|right; right].
-        eapply (pending_put s s i); [reflexivity|exact Hnth|auto|intros pc' He; discriminate|exact H].
+        eapply (pending_put s s i); [reflexivity|exact Hnth|auto|intros e' pc' He; discriminate|exact H].
       * intros k b0 Hin. cbn in Hin. destruct (HM k b0 Hin) as [c0 Hc]. exists c0. rewrite (thr_put s s i _ k eq_refl).
         destruct (Nat.eqb_spec i k) as [->|]; [unfold thr in Hc; rewrite Hnth in Hc; discriminate|exact Hc].
   - (* TWs c 0 None : exchange + record *)
@@ -277,7 +283,7 @@ Proof.
         destruct (Nat.eqb_spec i k) as [->|Hik].
         -- unfold thr in Hk; rewrite Hnth in Hk. inversion Hk; subst. destruct Hpc; discriminate.
         -- cbn in Hd. destruct (HI k c0 pc b0 Hk Hpc Hd) as [H|[H|H]]; [left; exact H|right; left; exact H|right; right].
-           eapply (pending_put s (op_exchange_record s c i b1) i); [reflexivity|exact Hnth|auto|intros pc' He; discriminate|exact H].
+           eapply (pending_put s (op_exchange_record s c i b1) i); [reflexivity|exact Hnth|auto|intros e' pc' He; discriminate|exact H].
       * intros k b0 Hin. cbn in Hin. destruct (HM k b0 Hin) as [c0 Hc]. exists c0. rewrite (thr_put s (op_exchange_record s c i b1) i _ k eq_refl).
         destruct (Nat.eqb_spec i k) as [->|]; [unfold thr in Hc; rewrite Hnth in Hc; discriminate|exact Hc].
     + repeat split.
@@ -286,7 +292,7 @@ Proof.
       * intros k c0 pc b0 Hk Hpc Hd. rewrite (thr_put s s i _ k eq_refl) in Hk.
         destruct (Nat.eqb_spec i k) as [->|Hik]; [unfold thr in Hk; rewrite Hnth in Hk; discriminate|].
         cbn in Hd. destruct (HI k c0 pc b0 Hk Hpc Hd) as [H|[H|H]]; [left; exact H|right; left; exact H|right; right].
-        eapply (pending_put s s i); [reflexivity|exact Hnth|auto|intros pc' He; discriminate|exact H].
+        eapply (pending_put s s i); [reflexivity|exact Hnth|auto|intros e' pc' He; discriminate|exact H].
       * intros k b0 Hin. cbn in Hin. destruct (HM k b0 Hin) as [c0 Hc]. exists c0. rewrite (thr_put s s i _ k eq_refl).
         destruct (Nat.eqb_spec i k) as [->|]; [unfold thr in Hc; rewrite Hnth in Hc; discriminate|exact Hc].
   - (* TWs c 1 (Some b) : IsDenied re-check *)
@@ -300,7 +306,7 @@ Proof.
         destruct (Nat.eqb_spec i k) as [->|Hik].
         -- unfold thr in Hk; rewrite Hnth in Hk. inversion Hk; subst. destruct Hpc; discriminate.
         -- cbn in Hd. destruct (HI k c0 pc b0 Hk Hpc Hd) as [H|[H|H]]; [left; exact H|right; left; exact H|right; right].
-           eapply (pending_put s (op_delchild s i) i); [reflexivity|exact Hnth|auto|intros pc' He; discriminate|exact H].
+           eapply (pending_put s (op_delchild s i) i); [reflexivity|exact Hnth|auto|intros e' pc' He; discriminate|exact H].
       * intros k b0 Hin. cbn in Hin. destruct (HM k b0 Hin) as [c0 Hc]. exists c0. rewrite (thr_put s (op_delchild s i) i _ k eq_refl).
         destruct (Nat.eqb_spec i k) as [->|]; [unfold thr in Hc; rewrite Hnth in Hc; discriminate|exact Hc].
     + repeat split.
@@ -313,7 +319,7 @@ Proof.
         destruct (Nat.eqb_spec i k) as [->|Hik].
         -- unfold thr in Hk; rewrite Hnth in Hk. inversion Hk; subst. cbn in Hd. congruence.
         -- cbn in Hd. destruct (HI k c0 pc b0 Hk Hpc Hd) as [H|[H|H]]; [left; exact H|right; left; exact H|right; right].
-           eapply (pending_put s s i); [reflexivity|exact Hnth|auto|intros pc' He; discriminate|exact H].
+           eapply (pending_put s s i); [reflexivity|exact Hnth|auto|intros e' pc' He; discriminate|exact H].
       * intros k b0 Hin. cbn in Hin. destruct (HM k b0 Hin) as [c0 Hc]. exists c0. rewrite (thr_put s s i _ k eq_refl).
         destruct (Nat.eqb_spec i k) as [->|]; [unfold thr in Hc; rewrite Hnth in Hc; discriminate|exact Hc].
   - (* TWs c 2 (Some b) : register *)
@@ -327,9 +333,9 @@ Proof.
       destruct (Nat.eqb_spec i k) as [->|Hik].
       * unfold thr in Hk; rewrite Hnth in Hk. inversion Hk; subst. cbn in Hd.
         edestruct HI as [H|[H|H]]; [unfold thr; exact Hnth|left; reflexivity|exact Hd|left; exact H|right; left; exact H|right; right].
-        eapply (pending_put s (op_register s k b0) k); [reflexivity|exact Hnth|auto|intros pc' He; discriminate|exact H].
+        eapply (pending_put s (op_register s k b0) k); [reflexivity|exact Hnth|auto|intros e' pc' He; discriminate|exact H].
       * cbn in Hd. destruct (HI k c0 pc b0 Hk Hpc Hd) as [H|[H|H]]; [left; exact H|right; left; exact H|right; right].
-        eapply (pending_put s (op_register s i b) i); [reflexivity|exact Hnth|auto|intros pc' He; discriminate|exact H].
+        eapply (pending_put s (op_register s i b) i); [reflexivity|exact Hnth|auto|intros e' pc' He; discriminate|exact H].
     + intros k b0 Hin. cbn in Hin. rewrite (thr_put s (op_register s i b) i _ k eq_refl).
       destruct Hin as [Heq|Hin].
       * inversion Heq; subst. rewrite Nat.eqb_refl. unfold thr. rewrite Hnth. exists c. reflexivity.
@@ -345,9 +351,20 @@ Proof.
     + intros k c0 pc b0 Hk Hpc Hd. rewrite (thr_put s (op_drop s k0) i _ k eq_refl) in Hk.
       destruct (Nat.eqb_spec i k) as [->|Hik]; [unfold thr in Hk; rewrite Hnth in Hk; discriminate|].
       cbn in Hd. destruct (HI k c0 pc b0 Hk Hpc Hd) as [H|[H|H]]; [left; exact H|right; left; cbn; rewrite memn_cons, H; apply orb_true_r|right; right].
-      eapply (pending_put s (op_drop s k0) i); [reflexivity|exact Hnth|auto|intros pc' He; discriminate|exact H].
+      eapply (pending_put s (op_drop s k0) i); [reflexivity|exact Hnth|auto|intros e' pc' He; discriminate|exact H].
     + intros k b0 Hin. cbn in Hin. apply filter_In in Hin. destruct Hin as [Hin _].
       destruct (HM k b0 Hin) as [c0 Hc]. exists c0. rewrite (thr_put s (op_drop s k0) i _ k eq_refl).
+      destruct (Nat.eqb_spec i k) as [->|]; [unfold thr in Hc; rewrite Hnth in Hc; discriminate|exact Hc].
+  - (* TPrune tm 0 : DenyStore.Prune at clock tm - the deny list only shrinks *)
+    inversion Hstep; subst s'; clear Hstep. repeat split.
+    + intros k c0 pc b0 Hk Hpc. rewrite (thr_put s (op_prune s tm) i _ k eq_refl) in Hk.
+      destruct (Nat.eqb_spec i k) as [->|Hik]; [unfold thr in Hk; rewrite Hnth in Hk; discriminate|]. exact (HJ k c0 pc b0 Hk Hpc).
+    + intros k c0 pc b0 Hk Hpc Hd. rewrite (thr_put s (op_prune s tm) i _ k eq_refl) in Hk.
+      destruct (Nat.eqb_spec i k) as [->|Hik]; [unfold thr in Hk; rewrite Hnth in Hk; discriminate|].
+      cbn in Hd. apply memN_filter_sub in Hd.
+      destruct (HI k c0 pc b0 Hk Hpc Hd) as [H|[H|H]]; [left; exact H|right; left; exact H|right; right].
+      eapply (pending_put s (op_prune s tm) i); [reflexivity|exact Hnth|auto|intros e' pc' He; discriminate|exact H].
+    + intros k b0 Hin. cbn in Hin. destruct (HM k b0 Hin) as [c0 Hc]. exists c0. rewrite (thr_put s (op_prune s tm) i _ k eq_refl).
       destruct (Nat.eqb_spec i k) as [->|]; [unfold thr in Hc; rewrite Hnth in Hc; discriminate|exact Hc].
 Qed.
 
@@ -375,16 +392,23 @@ Proof.
   - rewrite H in Hc. discriminate.
   - rewrite H in He. discriminate.
   - unfold quiescent in Hq. apply andb_true_iff in Hq. destruct Hq as [Hf Hq0].
-    destruct H as [H|[j [pc [Hj Hpc]]]].
+    destruct H as [H|[j [ej [pc [Hj Hpc]]]]].
     + destruct (q s); [cbn in H; discriminate|discriminate].
     + rewrite forallb_forall in Hf. unfold thr in Hj. apply nth_error_In in Hj. specialize (Hf _ Hj). cbn in Hf.
       destruct Hpc; subst pc; discriminate.
 Qed.
 
-(* a deny entry leaves the list only through an explicit allow request for that booking *)
+Lemma memN_filter_keep x f l : memN x l = true -> f x = true -> memN x (filter f l) = true.
+Proof.
+  unfold memN. rewrite !existsb_exists. intros [y [Hy He]] Hf. apply N.eqb_eq in He. subst y.
+  exists x. split; [apply filter_In; split; assumption|apply N.eqb_refl].
+Qed.
+
+(* a deny entry leaves the list only through an explicit allow request for that booking, or through a
+   prune tick whose clock is past an expiry recorded for that booking *)
 Theorem deny_sticks s w s' b :
   step s w = Some s' -> memN b (deny s) = true -> memN b (deny s') = false ->
-  exists i, w = T i /\ thr s i = Some (TAllow b 0).
+  exists i, w = T i /\ (thr s i = Some (TAllow b 0) \/ exists t, thr s i = Some (TPrune t 0) /\ expired_at s t b = true).
 Proof.
   intros Hstep Hd Hd'. destruct w as [i|]; cbn [step] in Hstep.
   2:{ unfold denyloop in Hstep. destruct (q s); [discriminate|]. inversion Hstep; subst s'. cbn in Hd'. congruence. }
@@ -396,13 +420,87 @@ Proof.
     cbn in Hd'. rewrite memN_rm_other in Hd' by assumption. congruence.
   - inversion Hstep; subst s'; cbn in Hd'; congruence.
   - inversion Hstep; subst s'; cbn in Hd'; congruence.
-  - inversion Hstep; subst s'; cbn in Hd'. destruct (N.eq_dec b b0) as [->|Hn]; [unfold thr; exact Hnth|].
+  - inversion Hstep; subst s'; cbn in Hd'. destruct (N.eq_dec b b0) as [->|Hn]; [left; unfold thr; exact Hnth|].
     rewrite memN_rm_other in Hd' by assumption. congruence.
   - destruct (lookupc c (codes s)); inversion Hstep; subst s'; cbn in Hd'; congruence.
   - destruct (lookupc c (codes s)); inversion Hstep; subst s'; cbn in Hd'; congruence.
   - destruct (memN b0 (deny s)); inversion Hstep; subst s'; cbn in Hd'; congruence.
   - inversion Hstep; subst s'; cbn in Hd'; congruence.
   - inversion Hstep; subst s'; cbn in Hd'; congruence.
+  - inversion Hstep; subst s'; cbn in Hd'. right. exists tm. split; [unfold thr; exact Hnth|].
+    destruct (expired_at s tm b) eqn:Ex; [reflexivity|].
+    rewrite (memN_filter_keep b (fun b1 => negb (expired_at s tm b1)) (deny s) Hd) in Hd' by (rewrite Ex; reflexivity).
+    discriminate.
+Qed.
+
+(* the expiry table has one entry per booking: the one stated by its latest deny request *)
+Definition InvK (s : sys) : Prop := NoDup (map fst (dexp s)).
+
+Lemma rmE_not_in b l : ~ In b (map fst (rmE b l)).
+Proof.
+  unfold rmE. intros H. apply in_map_iff in H. destruct H as [[b' e] [Hb Hin]]. cbn in Hb. subst b'.
+  apply filter_In in Hin. destruct Hin as [_ Hf]. cbn in Hf. rewrite N.eqb_refl in Hf. discriminate.
+Qed.
+
+Lemma nodup_filter_fst {A B} (f : A * B -> bool) (l : list (A * B)) : NoDup (map fst l) -> NoDup (map fst (filter f l)).
+Proof.
+  induction l as [|x l IH]; cbn; intros H; [constructor|].
+  inversion H as [|? ? Hn Hr]; subst. destruct (f x); cbn; [|apply IH; exact Hr].
+  constructor; [|apply IH; exact Hr]. intros Hin. apply Hn. apply in_map_iff in Hin. destruct Hin as [y [Hy Hin]].
+  apply filter_In in Hin. apply in_map_iff. exists y. split; [exact Hy|apply Hin].
+Qed.
+
+Lemma step_invK s w s' : InvK s -> step s w = Some s' -> InvK s'.
+Proof.
+  unfold InvK. intros HK Hstep. destruct w as [i|]; cbn [step] in Hstep.
+  2:{ unfold denyloop in Hstep. destruct (q s); [discriminate|]. inversion Hstep; subst s'. exact HK. }
+  tstep_inv Hstep Hnth;
+    try (destruct (memN b (deny s))); try (destruct (lookupc c (codes s)));
+    inversion Hstep; subst s'; cbn; try exact HK.
+  all: try (constructor; [apply rmE_not_in|unfold rmE; apply nodup_filter_fst; exact HK]).
+  all: apply nodup_filter_fst; exact HK.
+Qed.
+
+Lemma run_invK sched : forall s, InvK s -> InvK (run sched s).
+Proof.
+  induction sched as [|w r IH]; intros s H; cbn; [exact H|].
+  destruct (step s w) as [s'|] eqn:E; [apply IH; eapply step_invK; eassumption|apply IH; exact H].
+Qed.
+
+(* the deny step records exactly the expiry the request stated *)
+Theorem deny_records_its_expiry s i b e :
+  thr s i = Some (TDeny b e 0) ->
+  exists s', tstep s i = Some s' /\ memN b (deny s') = true /\ In (b, e) (dexp s') /\ (forall e', In (b, e') (dexp s') -> e' = e).
+Proof.
+  intros Hi. unfold tstep. unfold thr in Hi. rewrite Hi. eexists. split; [reflexivity|]. cbn. repeat split.
+  - rewrite memN_cons, N.eqb_refl. reflexivity.
+  - left. reflexivity.
+  - intros e' [H|H]; [inversion H; reflexivity|]. exfalso. apply (rmE_not_in b (dexp s)). apply in_map_iff. exists (b, e'). split; [reflexivity|exact H].
+Qed.
+
+(* "... until an explicit allow or the expiry given in the deny request": in every reachable state, a
+   booking denied with recorded expiry e stops being denied only by an explicit allow request for it, or
+   by a prune tick whose clock t is past e *)
+Theorem deny_holds_until_allow_or_expiry ts cs n sched w s' b e :
+  let s := run sched (init ts cs n) in
+  step s w = Some s' -> memN b (deny s) = true -> In (b, e) (dexp s) -> memN b (deny s') = false ->
+  exists i, w = T i /\ (thr s i = Some (TAllow b 0) \/ exists t, thr s i = Some (TPrune t 0) /\ (e < t)%Z).
+Proof.
+  intros s Hstep Hd He Hd'.
+  assert (HK : InvK s) by (apply run_invK; unfold InvK; cbn; constructor).
+  destruct (deny_sticks s w s' b Hstep Hd Hd') as [i [Hw [Ha|[t [Ht Hex]]]]]; exists i; (split; [exact Hw|]); [left; exact Ha|].
+  right. exists t. split; [exact Ht|].
+  unfold expired_at in Hex. apply existsb_exists in Hex. destruct Hex as [[b' e'] [Hin Hc]]. cbn in Hc.
+  apply andb_true_iff in Hc. destruct Hc as [Hb Hlt]. apply N.eqb_eq in Hb. subst b'.
+  assert (e' = e).
+  { unfold InvK in HK. clear - HK Hin He. induction (dexp s) as [|[b1 e1] l IH]; [contradiction|].
+    cbn in HK. inversion HK as [|? ? Hn Hr]; subst.
+    destruct Hin as [Hin|Hin], He as [He|He].
+    - congruence.
+    - inversion Hin; subst. exfalso. apply Hn. apply in_map_iff. exists (b, e). split; [reflexivity|exact He].
+    - inversion He; subst. exfalso. apply Hn. apply in_map_iff. exists (b, e'). split; [reflexivity|exact Hin].
+    - apply IH; assumption. }
+  subst e'. apply Z.ltb_lt in Hlt. exact Hlt.
 Qed.
 
 (* a session request whose check sees the deny entry is refused: 400, no code, nothing changes *)
@@ -420,10 +518,11 @@ Proof. intros Hi Hd. unfold tstep. unfold thr in Hi. rewrite Hi, Hd. reflexivity
 (* which booking a thread acts on in state s *)
 Definition acts_on (s : sys) (t : thread) : option N :=
   match t with
-  | TSession b _ _ | TDeny b _ | TAllow b _ => Some b
+  | TSession b _ _ | TDeny b _ _ | TAllow b _ => Some b
   | TWs c 0 _ => lookupc c (codes s)
   | TWs _ _ tok => tok
   | TLeave k _ => match nth_error (threads s) k with Some (TWs _ _ tok) => tok | _ => None end
+  | TPrune _ _ => None
   end.
 
 Definition codes_of (s : sys) (b : N) := filter (fun cb => N.eqb (snd cb) b) (codes s).
@@ -449,7 +548,7 @@ Qed.
    deny and allow status, codes and recorded channels unchanged, and closes nothing *)
 Theorem other_bookings_untouched s i s' t b b' :
   thr s i = Some t -> tstep s i = Some s' ->
-  match t with TSession x _ _ | TDeny x _ | TAllow x _ => x = b | _ => False end -> b' <> b ->
+  match t with TSession x _ _ | TDeny x _ _ | TAllow x _ => x = b | _ => False end -> b' <> b ->
   memN b' (deny s') = memN b' (deny s) /\ memN b' (allow s') = memN b' (allow s) /\
   codes_of s' b' = codes_of s b' /\ chans_of s' b' = chans_of s b' /\ closed s' = closed s /\ members s' = members s.
 Proof.
